@@ -205,6 +205,37 @@ func bvAddSub(a, b string, sign int) string {
 	return linBuild(lf, w)
 }
 
+// elemIdx builds the address of element idx of a slice with offset off in the canonical shape
+// (bvadd <offset atom> <rest>): quantified invariants over s[j] have the pattern
+// (select A (bvadd off j)), and E-matching is syntactic, so the offset atom must stay separate
+// from the (normalised) index part.
+func elemIdx(off, idx string) string {
+	lf := &linForm{c: new(big.Int), atoms: map[string]*big.Int{}}
+	linearize(off, 1, lf)
+	linearize(idx, 1, lf)
+	head := ""
+	for a, c := range lf.atoms {
+		if c.Cmp(big.NewInt(1)) == 0 && strings.Contains(a, ".off") && !strings.HasPrefix(a, "(bv") {
+			if head == "" || a < head {
+				head = a
+			}
+		}
+	}
+	if head == "" {
+		if _, _, isLit := bvLit(off); isLit {
+			return bvAdd(off, idx)
+		}
+		return mkIdx(off, idx)
+	}
+	delete(lf.atoms, head)
+	w := lf.w
+	if w == 0 {
+		w = 64
+	}
+	rest := linBuild(lf, w)
+	return mkIdx(head, rest)
+}
+
 func bvAdd(a, b string) string { return bvAddSub(a, b, 1) }
 func bvSub(a, b string) string { return bvAddSub(a, b, -1) }
 
@@ -567,7 +598,7 @@ func (vc *VC) bytesToString(st *State, v Val, to types.Type) Val {
 	vc.sc.assert(eq(sx("s.len", s), v.Sl[2]))
 	i := "i!q"
 	vc.sc.assert(fmt.Sprintf("(forall ((%s %s)) (! (=> (and (bvsle %s %s) (bvslt %s %s)) (= (s.at %s %s) %s)) :pattern ((s.at %s %s))))",
-		i, sortIdx, i64(0), i, i, v.Sl[2], s, i, sel(sel(h, v.Sl[0]), bvAdd(v.Sl[1], i)), s, i))
+		i, sortIdx, i64(0), i, i, v.Sl[2], s, i, sel(sel(h, v.Sl[0]), elemIdx(v.Sl[1], i)), s, i))
 	return Val{K: KScalar, T: to, S: s}
 }
 
@@ -923,7 +954,7 @@ func (vc *VC) indexLoc(st *State, s Val, i Val, pos token.Position, what string)
 	switch s.K {
 	case KSlice:
 		vc.oblige(st, "nopanic", "nopanic.index:"+what, "index out of range", pos, and(sx("bvsle", i64(0), idx), sx("bvslt", idx, s.Sl[2])))
-		return &Loc{Kind: locElem, Ref: s.Sl[0], Idx: bvAdd(s.Sl[1], idx), Base: s.T.Underlying().(*types.Slice).Elem()}
+		return &Loc{Kind: locElem, Ref: s.Sl[0], Idx: elemIdx(s.Sl[1], idx), Base: s.T.Underlying().(*types.Slice).Elem()}
 	case KPtr:
 		at, ok := s.L.typeAt().Underlying().(*types.Array)
 		if !ok {
@@ -1056,19 +1087,19 @@ func (vc *VC) appendOp(st *State, s, t Val, pos token.Position) Val {
 				}
 				return r
 			}
-			return sel(sel(h, t.Sl[0]), bvAdd(t.Sl[1], k))
+			return sel(sel(h, t.Sl[0]), elemIdx(t.Sl[1], k))
 		}
 		var na string
 		if tok && lok {
 			// fully explicit: both lengths are small constants
 			ip := sel(h, a)
 			for k := int64(0); k < tn; k++ {
-				ip = store(ip, bvAdd(o, bvAdd(l, i64(k))), src(i64(k)))
+				ip = store(ip, elemIdx(o, bvAdd(l, i64(k))), src(i64(k)))
 			}
 			fr := vc.sc.fresh("newarr", inner)
 			var eqs []string
 			for k := int64(0); k < ln; k++ {
-				eqs = append(eqs, eq(sel(fr, i64(k)), sel(sel(h, a), bvAdd(o, i64(k)))))
+				eqs = append(eqs, eq(sel(fr, i64(k)), sel(sel(h, a), elemIdx(o, i64(k)))))
 			}
 			for k := int64(0); k < tn; k++ {
 				eqs = append(eqs, eq(sel(fr, i64(ln+k)), src(i64(k))))
@@ -1082,7 +1113,7 @@ func (vc *VC) appendOp(st *State, s, t Val, pos token.Position) Val {
 			k := bvSub(i, noff)
 			// uniform window: the first n elements of the result are s followed by t
 			win := implies(and(sx("bvsle", i64(0), k), sx("bvslt", k, n)),
-				eq(sel(na, i), ite(sx("bvslt", k, l), sel(sel(h, a), bvAdd(o, k)), src(bvSub(k, l)))))
+				eq(sel(na, i), ite(sx("bvslt", k, l), sel(sel(h, a), elemIdx(o, k)), src(bvSub(k, l)))))
 			// in place: everything outside the appended window keeps its old content
 			fr := implies(and(inplace, not(and(sx("bvsle", bvAdd(o, l), i), sx("bvslt", i, bvAdd(o, n))))), eq(sel(na, i), sel(sel(h, a), i)))
 			vc.sc.assert(fmt.Sprintf("(forall ((%s %s)) (! (and %s %s) :pattern ((select %s %s))))", i, sortIdx, win, fr, na, i))
@@ -1142,13 +1173,13 @@ func (vc *VC) copyOp(st *State, d, s Val, pos token.Position) Val {
 			if sIsStr {
 				return sx("s.at", s.S, k)
 			}
-			return sel(sel(h, s.Sl[0]), bvAdd(s.Sl[1], k))
+			return sel(sel(h, s.Sl[0]), elemIdx(s.Sl[1], k))
 		}
 		var na string
 		if nok {
 			na = sel(h, d.Sl[0])
 			for k := int64(0); k < nk; k++ {
-				at := bvAdd(d.Sl[1], i64(k))
+				at := elemIdx(d.Sl[1], i64(k))
 				v := src(i64(k))
 				if guarded {
 					v = ite(sx("bvslt", i64(k), n), v, sel(sel(h, d.Sl[0]), at))
@@ -1261,22 +1292,22 @@ func (vc *VC) appendOwned(st *State, s, t Val, pos token.Position) Val {
 				}
 				return r
 			}
-			return sel(sel(h, t.Sl[0]), bvAdd(t.Sl[1], k))
+			return sel(sel(h, t.Sl[0]), elemIdx(t.Sl[1], k))
 		}
 		na := vc.sc.fresh("apparr", inner)
 		i := "i!q"
 		var parts []string
 		if lok {
 			for k := int64(0); k < ln; k++ {
-				vc.sc.assert(eq(sel(na, i64(k)), sel(sel(h, a), bvAdd(o, i64(k)))))
+				vc.sc.assert(eq(sel(na, i64(k)), sel(sel(h, a), elemIdx(o, i64(k)))))
 			}
 		} else if mx, ok := vc.sc.maxSmallLit(l, 0); ok && mx <= 8 {
 			// length is one of a few small literals: write the copy out, guarded by k < len
 			for k := int64(0); k < mx; k++ {
-				vc.sc.assert(implies(sx("bvslt", i64(k), l), eq(sel(na, i64(k)), sel(sel(h, a), bvAdd(o, i64(k))))))
+				vc.sc.assert(implies(sx("bvslt", i64(k), l), eq(sel(na, i64(k)), sel(sel(h, a), elemIdx(o, i64(k))))))
 			}
 		} else {
-			parts = append(parts, implies(and(sx("bvsle", i64(0), i), sx("bvslt", i, l)), eq(sel(na, i), sel(sel(h, a), bvAdd(o, i)))))
+			parts = append(parts, implies(and(sx("bvsle", i64(0), i), sx("bvslt", i, l)), eq(sel(na, i), sel(sel(h, a), elemIdx(o, i)))))
 		}
 		if tok {
 			for k := int64(0); k < tn; k++ {
